@@ -160,3 +160,12 @@ def install_queue(world):
             return Opaque("queued PduHolder")
         return q.appended.pop(0)
     world.call_stubs["queue_popleft"] = popleft
+
+    import collections
+
+    def mk_deque(I, args, kwargs, node):
+        if args or kwargs:
+            from pyvc.values import Unsupported
+            raise Unsupported("deque(...) with arguments")
+        return QueueCell(z3.IntVal(0))
+    world.call_stubs[id(collections.deque)] = ("deque", mk_deque)
